@@ -86,7 +86,7 @@ func H_C12_reentry() {
 	case 11:
 		b.RemoveNode(ctx, "f")
 	}
-	verifAssert(verifHeldLocks() == 0, "C12.lock-released-after-call")
+	verifAssert(verifNoLocksHeld(), "C12.lock-released-after-call")
 	// the broker is still usable afterwards
 	b.SetSuccessThreshold("t", 0)
 	verifReach("C12.reentry.end")
